@@ -270,8 +270,9 @@ func opsFuse(a, b string) bool {
 	if len(toks) != 2 || toks[0] != a || toks[1] != b {
 		return true
 	}
-	// "(" "(" and ")" ")" pair up to the arithmetic delimiters
-	if a == "(" && b == "(" || a == ")" && b == ")" {
+	// "(" "(" pairs up to the opening arithmetic delimiter; ")" ")" only
+	// does so where an arithmetic expression is open, and that is one token
+	if a == "(" && b == "(" {
 		return true
 	}
 	return false
